@@ -40,12 +40,13 @@ template <class View, class Rng> void fill_view_random(View const& v, Rng& rng) 
         gil::static_for_each(p, [&](auto const& c) { using C = typename std::remove_cv<typename std::remove_reference<decltype(c)>::type>::type; c = (unsigned)(rng.next() % ((unsigned long long)gil::channel_traits<C>::max_value() + 1)); }); }
 }
 
+static bool g_all_devices = false;
 // write through one of the three device kinds, read back through the same kind into Img
 template <class Tag, class View, class Img, class Info>
 void one(const char* fmt, const char* type, const char* org, View const& v, Info const& info, bool with_info, bool lossless, const char* variant) {
     for (int dev = 0; dev < 3; ++dev) {
         if (dev == 1 && std::is_same<Tag, gil::tiff_tag>::value) continue;       // the TIFF backend has no FILE* device
-        if (!A->thorough() && dev != 0 && (v.width() + v.height()) % 3 != dev % 3) continue;        // quick: other devices on a third of the shapes
+        if (!A->thorough() && !g_all_devices && dev != 0 && (v.width() + v.height()) % 3 != dev % 3) continue;        // quick: other devices on a third of the shapes
         std::string path = g_tmp + "/rt_" + std::to_string(getpid()) + "." + fmt;
         const char* devname = dev == 0 ? "filename" : dev == 1 ? "FILE*" : "stream";
         J("Try").str("fmt", fmt).str("type", type).str("org", org).str("dev", devname).str("variant", variant).num("w", v.width()).num("h", v.height()).emit();
@@ -88,6 +89,21 @@ void orgs(const char* fmt, const char* type, int w, int h, vt::Rng& rng, Info co
     if (planar_ok && ((w * h) % 2 == 1 || A->thorough())) {
         PlanarImg pimg(w, h); fill_random(pimg, rng, 0);
         one<Tag, typename PlanarImg::const_view_t, Img>(fmt, type, "planar", gil::const_view(pimg), info, with_info, lossless, variant);
+    }
+    // the same pixel type in another channel order (bgr / bgra / argb / abgr): written by colour, not by memory position
+    {
+        using P = typename Img::value_type; using C = typename gil::channel_type<P>::type; using CS = typename gil::color_space_type<P>::type;
+        auto reordered = [&](auto layout_tag, const char* org) {
+            using L = decltype(layout_tag); using RImg = gil::image<gil::pixel<C, L>, false>;
+            RImg r(w, h); fill_random(r, rng, 0);
+            one<Tag, typename RImg::const_view_t, Img>(fmt, type, org, gil::const_view(r), info, with_info, lossless, variant);
+        };
+        if constexpr (std::is_same<CS, gil::rgb_t>::value) { if ((w + 2 * h) % 3 == 0 || A->thorough()) reordered(gil::bgr_layout_t(), "bgr"); }
+        if constexpr (std::is_same<CS, gil::rgba_t>::value) {
+            if ((w + 2 * h) % 3 == 0 || A->thorough()) reordered(gil::bgra_layout_t(), "bgra");
+            if ((w + 2 * h) % 3 == 1 || A->thorough()) reordered(gil::argb_layout_t(), "argb");
+            if ((w + 2 * h) % 3 == 2 || A->thorough()) reordered(gil::abgr_layout_t(), "abgr");
+        }
     }
     if (!lossless) {         // JPEG: constant and smooth content
         Img c(w, h); fill_random(c, rng, 1);
@@ -166,6 +182,18 @@ int main(int argc, char** argv) {
         gil::image_write_info<gil::jpeg_tag> ji(100);
         orgs<gil::jpeg_tag, gil::gray8_image_t, gil::gray8_image_t>("jpg", "gray8", d.first, d.second, rng, ji, true, false, "q100/large", false);
         orgs<gil::jpeg_tag, gil::rgb8_image_t, gil::rgb8_planar_image_t>("jpg", "rgb8", d.first, d.second, rng, ji, true, false, "q100/large", true);
+    }
+    // dimensions that need more than one byte in a header field (>= 256), through every device
+    for (auto d : {std::pair<int,int>{256, 2}, {2, 256}, {300, 3}, {5, 1000}}) {
+        if (!mine()) continue; vt::Rng rng(args.seed * 23 + d.first);
+        gil::image_write_info<gil::bmp_tag> bi; gil::image_write_info<gil::pnm_tag> pi; gil::image_write_info<gil::targa_tag> ti; gil::image_write_info<gil::png_tag> gi;
+        bool save = false; std::swap(save, g_all_devices); g_all_devices = true;
+        { gil::rgb8_image_t img(d.first, d.second); fill_random(img, rng, 0);
+          one<gil::bmp_tag, gil::rgb8_image_t::const_view_t, gil::rgb8_image_t>("bmp", "rgb8", "large", gil::const_view(img), bi, false, true, "");
+          one<gil::targa_tag, gil::rgb8_image_t::const_view_t, gil::rgb8_image_t>("tga", "rgb8", "large", gil::const_view(img), ti, false, true, "");
+          one<gil::pnm_tag, gil::rgb8_image_t::const_view_t, gil::rgb8_image_t>("pnm", "rgb8", "large", gil::const_view(img), pi, false, true, "");
+          one<gil::png_tag, gil::rgb8_image_t::const_view_t, gil::rgb8_image_t>("png", "rgb8", "large", gil::const_view(img), gi, false, true, ""); }
+        g_all_devices = save;
     }
     // 1-bit images wide enough for several whole bytes per row
     for (auto d : {std::pair<int,int>{29, 4}, {40, 3}, {64, 2}, {17, 5}}) {
